@@ -44,7 +44,7 @@ def repo_fingerprint(repo):
     return h.hexdigest()
 
 
-DEP_PACKAGES = ['integer-encoding']
+DEP_PACKAGES = ['integer-encoding', 'hilbert_2d']
 
 
 def expand(repo, cache_dir, features='async'):
@@ -53,7 +53,7 @@ def expand(repo, cache_dir, features='async'):
     cache hit is only possible for a byte-identical source tree."""
     fp = repo_fingerprint(repo)
     os.makedirs(cache_dir, exist_ok=True)
-    cached = os.path.join(cache_dir, f'expanded2-{features or "default"}-{fp[:24]}.rs')
+    cached = os.path.join(cache_dir, f'expanded3-{features or "default"}-{fp[:24]}.rs')
     if os.path.exists(cached):
         return open(cached).read(), {'fingerprint': fp, 'cache_hit': True, 'wall_s': 0.0}
     scratch = os.path.join(cache_dir, f'exp-target-{os.getpid()}')
@@ -225,6 +225,16 @@ class Crate:
                 while self.toks[s - 1].text in ('pub', 'crate') or (self.toks[s - 1].text in '()' and self.toks[s - 2].text in ('pub', 'crate', '(')):
                     s -= 1
                 j = i
+                if kw == 'const':
+                    # up to the `;` that is not inside brackets (array types `[T; N]` contain one)
+                    nest = 0
+                    while not (self.toks[j].text == ';' and nest == 0):
+                        if self.toks[j].text in ('(', '[', '{'):
+                            nest += 1
+                        elif self.toks[j].text in (')', ']', '}'):
+                            nest -= 1
+                        j += 1
+                    return self.toks[s:j + 1]
                 while self.toks[j].text not in ('{', ';'):
                     j += 1
                 if self.toks[j].text == '{':
@@ -261,7 +271,12 @@ class Crate:
                     while j > 0 and toks[j - 1].kind in ('ident',) and toks[j - 1].text in ('pub', 'crate') or (j > 0 and toks[j - 1].text in ('(', ')')):
                         j -= 1
                     k = i
-                    while k < n and toks[k].text != ';':
+                    nest = 0
+                    while k < n and not (toks[k].text == ';' and nest == 0):
+                        if toks[k].text in ('(', '[', '{'):
+                            nest += 1
+                        elif toks[k].text in (')', ']', '}'):
+                            nest -= 1
                         k += 1
                     if not (stack and stack[0][0].startswith('__dep_')):
                         out.append(('::'.join(m for m, _ in stack), toks[j:k + 1]))
